@@ -17,12 +17,12 @@ t = time.time()
 cases = s.generate(rng, tier)
 print("generated", len(cases), "in %.1fs" % (time.time() - t)); t = time.time()
 gs = s.group_starts(cases) if hasattr(s, "group_starts") else None
-ho, mo = ajlib.run_both(exe, [c.line for c in cases], group_starts=gs, driver=getattr(s, "uses_driver", True))
+ho, mo = ajlib.run_both(exe, [c.meta.get("mline", c.line) for c in cases], hlines=[c.line for c in cases], group_starts=gs, driver=getattr(s, "uses_driver", True))
 print("ran in %.1fs" % (time.time() - t)); t = time.time()
 dis = collections.defaultdict(list); orc = collections.defaultdict(list); feats = set()
 for i, c in enumerate(cases):
     if ho[i] == "SKIPPED": continue
-    if mo:
+    if mo and not c.meta.get("nocompare"):
         d = s.compare(c, ho[i], mo[i])
         if d: dis[d[:40]].append((c.line, d))
     o = s.oracle(c, ho[i])
